@@ -210,7 +210,8 @@ class CallMixin:
                 if not o.feasible(rest):
                     return
                 st = rest
-        self.check_no_override(st, recv, defcls, name, classmethod_)
+        if after is None:
+            self.check_no_override(st, recv, defcls, name, classmethod_)
         yield from self.inline_call(st, src.classes[defcls].module, defcls, fnode, recv, args, kwargs, cx, classmethod_)
 
     def check_no_override(self, st, recv, defcls, name, classmethod_):
@@ -246,10 +247,18 @@ class CallMixin:
         if t == "hashalg":
             yield from self.EXTERNALS["hashlib.new"](self, st, [fv] + args, kwargs, cx)
             return
-        cls = self.o.refcls(st, fv, ("Schema", "ConfigTypeField", "function", "partial"))
-        if cls in ("Schema", "ConfigTypeField"):
-            yield from self.call_method(st, fv, cls, "__call__", args, kwargs, cx)
+        rest = st
+        for cls in ("Schema", "ConfigTypeField"):
+            isc = self.o.is_type(fv.e, "ref:" + cls)
+            br = rest.clone()
+            br.assume(isc)
+            if self.o.feasible(br):
+                yield from self.call_method(br, SV(fv.e, "ref:" + cls), cls, "__call__", args, kwargs, cx)
+            rest = rest.clone()
+            rest.assume(z3.Not(isc))
+        if not self.o.feasible(rest):
             return
+        st = rest
         # user callable: arbitrary result or arbitrary Exception; touches nothing of the library;
         # deterministic in (callable, arguments) -- see DESIGN 2.2
         yield from self.user_callable(st, fv, args, kwargs, cx)
@@ -267,7 +276,7 @@ class CallMixin:
         s1.assume(f_ok(*a))
         s1.setg("ncalls", s1.g("ncalls") + 1)
         res = f_res(*a)
-        s1.assume(z3.Implies(w.V.is_ref(res), w.V.r(res) <= s1.alloc))
+        s1.assume(z3.Implies(w.V.is_ref(res), z3.And(w.V.r(res) > 0, w.V.r(res) <= s1.alloc)))
         if o.feasible(s1):
             yield s1, SV(res)
         s2 = st.clone()
@@ -384,7 +393,7 @@ class CallMixin:
             if not (c.returns.startswith("opt:") or "|" in c.returns or c.returns in ("any", "V")):
                 res.ty = c.returns
         else:
-            s1.assume(z3.Implies(w.V.is_ref(res.e), w.V.r(res.e) <= s1.alloc))
+            s1.assume(z3.Implies(w.V.is_ref(res.e), z3.And(w.V.r(res.e) > 0, w.V.r(res.e) <= s1.alloc)))
         nm = dict(names)
         nm["result"] = res
         sp = Spec(old, nm, oldnames=names, mode="assume")
@@ -421,7 +430,9 @@ class CallMixin:
                     s.assume(nv >= s.g(loc))
                 s.setg(loc, nv)
             elif loc.endswith("@*"):
-                a = mangle(c.cls, loc[:-2])
+                a = loc[:-2]
+                if "." not in a:
+                    raise Unsupported("modifies %s: name the declaring class (Class.attr@*)" % loc)
                 s.heap[a] = w.fresh("H_" + a.replace("$", "S"), s.arr(a).sort())
             elif loc == "*":
                 w._ctr += 1
@@ -438,7 +449,11 @@ class CallMixin:
                     base, _, attr = loc.rpartition(".")
                     tgt = self.ev1(old, ast.parse(base, mode="eval").body, cc.with_spec(sp))
                     attr = mangle(c.cls, attr)
-                    s.wr(attr, o.r(tgt), w.freshV(attr))
+                    tcls = tgt.ty[4:] if tgt.ty and tgt.ty.startswith("ref:") else self.static_class(old, tgt, attr)
+                    decl = self.reg.attr_decl(self.src, tcls, attr) if tcls else None
+                    if decl is None:
+                        raise Unsupported("modifies %s: undeclared attribute" % loc)
+                    s.wr(decl[0] + "." + attr, o.r(tgt), w.freshV(attr))
                 else:
                     tgt = self.ev1(old, ast.parse(loc, mode="eval").body, cc.with_spec(sp))
                     r = o.r(tgt)
@@ -525,11 +540,14 @@ class CallMixin:
             return o.bool_(z3.And(V.is_ref(a.e), V.r(a.e) > sp.old.alloc))
         if fn == "allocated":
             a = A(0)
-            return o.bool_(z3.Implies(V.is_ref(a.e), V.r(a.e) <= st.alloc))
+            return o.bool_(z3.Implies(V.is_ref(a.e), z3.And(V.r(a.e) > 0, V.r(a.e) <= st.alloc)))
         if fn == "typeis":
             return o.bool_(o.is_type(A(0).e, e.args[1].value))
         if fn == "truthy":
             return o.bool_(T(0))
+        if fn == "exact_class":
+            a = A(0)
+            return o.bool_(z3.And(V.is_ref(a.e), z3.Or([w.cls_of(V.r(a.e)) == w.CLS[n.value] for n in e.args[1:]])))
         if fn == "classof":
             return SV(V.cls(w.pytype(A(0).e)), "cls")
         if fn == "heap_unchanged":
@@ -599,9 +617,9 @@ class CallMixin:
         old = sp.old
         attrs = set(st.heap) | set(old.heap)
         if st.epoch != old.epoch:
-            attrs |= {a for (_, a), d in self.reg.attrs.items() if not d.startswith("rep:")} | set(w.SPECIAL)
+            attrs |= {c + "." + a for (c, a), d in self.reg.attrs.items() if not d.startswith("rep:")} | set(w.SPECIAL)
         attrs = sorted(attrs)
-        attrs = [a for a in attrs if a not in skip_attrs]
+        attrs = [a for a in attrs if a not in skip_attrs and a.split(".")[-1] not in skip_attrs]
 
         def schema(r, st=st, old=old, attrs=attrs, skip_objs=skip_objs):
             isold = z3.Or(z3.And(r > 0, r <= old.alloc), z3.And(r < 0, (-r) / 16 <= old.alloc))
